@@ -142,7 +142,28 @@ theorem clientValidateBasic_val (p : ClientProp) (h : clientValidateBasic p = .o
   · cases hc : p.cs with
     | nil => simp [hc] at h
     | wrong => simp [hc] at h
-    | val c => exact ⟨c, rfl, by simpa [hc] using h⟩
+    | val c =>
+      simp only [hc] at h
+      obtain ⟨_, hv, _⟩ := bind_eq_ok h
+      exact ⟨c, rfl, hv⟩
+
+/-- since fafdbf1: an accepted client proposal carries a consensus state that unpacks and passes its `ValidateBasic`
+(so the handlers' `UnpackConsensusState` cannot fail any more for validated contents). -/
+theorem clientValidateBasic_cons (p : ClientProp) (h : clientValidateBasic p = .ok ()) :
+    ∃ t, p.cons = .val t ∧ consValidate t p.tmc = .ok () := by
+  unfold clientValidateBasic at h
+  split at h
+  · simp at h
+  · cases hc : p.cs with
+    | nil => simp [hc] at h
+    | wrong => simp [hc] at h
+    | val c =>
+      simp only [hc] at h
+      obtain ⟨_, _, h2⟩ := bind_eq_ok h
+      cases ht : p.cons with
+      | nil => simp [ht] at h2
+      | wrong => simp [ht] at h2
+      | val t => exact ⟨t, rfl, by simpa [ht] using h2⟩
 
 theorem unpack_noPanic {α} (a : AnyV α) : (unpack a).isPanic = false := by cases a <;> rfl
 
@@ -797,7 +818,7 @@ theorem unfixed_bsc_chainid_witness :
 
 def exBsc : Bsc := { epoch := 200, chainId := 56, height := 400, extraLen := 97 + 40, mixZero := true,
                      uncleOk := true, bloomLen := 256, nonceLen := 8, diffZero := false }
-def exProp : ClientProp := ⟨true, "bsc-1", .val (.bsc exBsc), .val .bsc⟩
+def exProp : ClientProp := ⟨true, "bsc-1", .val (.bsc exBsc), .val .bsc, {}⟩
 
 example : clientValidateBasic exProp = .ok () := by decide
 example : (handleCreate { sig := .good } {} exProp).isOk = true := by decide
